@@ -154,6 +154,10 @@ func (b *Built) build(s *Spec) (res error) {
 		return &RLeafIs{S(0), S(1)}
 	case "prototest":
 		return &errorspb.TestError{}
+	case "uzeroa":
+		return &ZeroA{}
+	case "uzerob":
+		return &ZeroB{}
 	case "uoptleaf":
 		return &UOpt{S(0), nil}
 	case "uleafas":
@@ -313,6 +317,13 @@ func (b *Built) build(s *Spec) (res error) {
 		return &UWrapFormatter{S(0), S(1), c}
 	case "uwrapsafefmt":
 		return &UWrapSafeFmt{S(0), S(1), c}
+	case "uwrapbothfmt":
+		return &UWrapBothFmt{S(0), S(1), c}
+	case "uwrapstackdetails":
+		st := errors.WithStack(c).(interface{ StackTrace() errbase.StackTrace }).StackTrace()
+		return &UWrapStackDetails{S(1), S(0), c, st}
+	case "ucodedanon":
+		return CodedAnon(goErr.New(S(0)), s.I[0])
 	case "uopt":
 		return &UOpt{S(0), c}
 	case "uwrapfmtold":
@@ -349,6 +360,8 @@ func (b *Built) build(s *Spec) (res error) {
 		return &UMultiCauser{S(0), xs}
 	case "umultiis":
 		return &UMultiIs{S(0), xs, S(1)}
+	case "umultiholes":
+		return &UMultiHoles{S(0), joinArgs(s.I[0], xs)}
 	}
 	panic("unknown kind " + s.K)
 }
